@@ -300,9 +300,9 @@ pub fn minimise(world: &dyn World, plan: &Plan, viol: &Violation, budget: u64) -
         if let Faults::Script(fs) = best.faults.clone() {
             let mut fs = fs;
             let mut chunk = (fs.len() / 2).max(1);
-            while !fs.is_empty() && execs < budget {
+            while !fs.is_empty() && execs < budget && t_min.elapsed().as_secs() < 90 {
                 let mut i = 0;
-                while i < fs.len() && execs < budget {
+                while i < fs.len() && execs < budget && t_min.elapsed().as_secs() < 90 {
                     let mut cand_f = fs.clone();
                     let end = (i + chunk).min(cand_f.len());
                     cand_f.drain(i..end);
@@ -326,7 +326,7 @@ pub fn minimise(world: &dyn World, plan: &Plan, viol: &Violation, budget: u64) -
         }
         // 4. simpler configuration
         for cfg in world.simplify_cfg(&best) {
-            if execs >= budget {
+            if execs >= budget || t_min.elapsed().as_secs() >= 120 {
                 break;
             }
             let mut cand = best.clone();
@@ -340,7 +340,7 @@ pub fn minimise(world: &dyn World, plan: &Plan, viol: &Violation, budget: u64) -
         }
         // 5. simpler operations: one caller, small arguments
         for i in 0..best.ops.len() {
-            if execs >= budget {
+            if execs >= budget || t_min.elapsed().as_secs() >= 90 {
                 break;
             }
             let cur = best.ops[i].clone();
